@@ -40,20 +40,31 @@ Record disk := mk_disk {
   d_heads : list nat;        (* op_heads/heads *)
   d_checkout : nat;          (* operation recorded in .jj/working_copy/checkout *)
   d_wc_dirty : list nat;     (* working-copy paths written/removed since tree_state was last saved *)
-  d_nobj : nat               (* content-addressed objects bound since the last operation object *)
+  d_nobj : nat;              (* content-addressed objects bound since the last operation object *)
+  d_ts : nat                 (* operation whose working-copy tree the saved tree_state describes *)
 }.
 
 Definition newest (H : list nat) : nat := fold_right Nat.max 0 H.
 
-Definition apply_effect (d : disk) (e : effect) : disk :=
+(** [chg] = the operations whose working-copy commit has another tree than at the operation
+    before (measured on the real repo). tree_state keeps describing the current operation's
+    tree when a new head does not change that tree; LockedLocalWorkingCopy::finish
+    (lib/src/local_working_copy.rs:2967-2993) saves tree_state (if dirty) and only then
+    rebinds checkout to the new operation. *)
+Definition apply_effect (chg : list nat) (d : disk) (e : effect) : disk :=
   match e with
-  | EObj => mk_disk (d_ops d) (d_heads d) (d_checkout d) (d_wc_dirty d) (S (d_nobj d))
-  | EOp n => mk_disk (n :: d_ops d) (d_heads d) (d_checkout d) (d_wc_dirty d) 0
-  | EHeadAdd n => mk_disk (d_ops d) (add_head n (d_heads d)) (d_checkout d) (d_wc_dirty d) (d_nobj d)
-  | EHeadRemove n => mk_disk (d_ops d) (remove_id n (d_heads d)) (d_checkout d) (d_wc_dirty d) (d_nobj d)
-  | EWcWrite p | EWcRemove p => mk_disk (d_ops d) (d_heads d) (d_checkout d) (p :: d_wc_dirty d) (d_nobj d)
-  | ETreeState => mk_disk (d_ops d) (d_heads d) (d_checkout d) [] (d_nobj d)
-  | ECheckout => mk_disk (d_ops d) (d_heads d) (newest (d_heads d)) (d_wc_dirty d) (d_nobj d)
+  | EObj => mk_disk (d_ops d) (d_heads d) (d_checkout d) (d_wc_dirty d) (S (d_nobj d)) (d_ts d)
+  | EOp n => mk_disk (n :: d_ops d) (d_heads d) (d_checkout d) (d_wc_dirty d) 0 (d_ts d)
+  | EHeadAdd n =>
+    mk_disk (d_ops d) (add_head n (d_heads d)) (d_checkout d) (d_wc_dirty d) (d_nobj d)
+            (if (d_ts d =? newest (d_heads d)) && negb (memn n chg) then n else d_ts d)
+  | EHeadRemove n =>
+    mk_disk (d_ops d) (remove_id n (d_heads d)) (d_checkout d) (d_wc_dirty d) (d_nobj d) (d_ts d)
+  | EWcWrite p | EWcRemove p =>
+    mk_disk (d_ops d) (d_heads d) (d_checkout d) (p :: d_wc_dirty d) (d_nobj d) (d_ts d)
+  | ETreeState => mk_disk (d_ops d) (d_heads d) (d_checkout d) [] (d_nobj d) (newest (d_heads d))
+  | ECheckout =>
+    mk_disk (d_ops d) (d_heads d) (newest (d_heads d)) (d_wc_dirty d) (d_nobj d) (d_ts d)
   | ELink _ | ETabAdd | ETabRemove | EOther => d
   end.
 
@@ -63,27 +74,32 @@ Definition apply_effect (d : disk) (e : effect) : disk :=
       bound operation that descends from every current head;
     - a head is removed only when a strict descendant of it is already a head;
     - the index link is written only for a bound operation;
-    - the working-copy checkout is pointed only at a published operation. *)
+    - the working-copy checkout is pointed only at a published operation, and only when the
+      saved tree_state describes that operation's tree and no working-copy file was touched
+      since it was saved (tree_state BEFORE checkout). *)
 Definition allowed (g : dag) (d : disk) (e : effect) : bool :=
   match e with
   | EOp n => (0 <? d_nobj d) && negb (memn n (d_ops d)) && forallb (fun p => memn p (d_ops d)) (parents g n)
   | ELink n => memn n (d_ops d)
   | EHeadAdd n => memn n (d_ops d) && forallb (fun h => ancb g h n) (d_heads d)
   | EHeadRemove x => existsb (fun h => sancb g x h) (d_heads d)
-  | ECheckout => negb (match d_heads d with [] => true | _ => false end)
+  | ECheckout =>
+    negb (match d_heads d with [] => true | _ => false end)
+    && (d_ts d =? newest (d_heads d))
+    && match d_wc_dirty d with [] => true | _ => false end
   | _ => true
   end.
 
 (** Trace acceptance: [None] as soon as an effect breaks the discipline. *)
-Fixpoint accept (g : dag) (d : disk) (l : list effect) : option disk :=
+Fixpoint accept (g : dag) (chg : list nat) (d : disk) (l : list effect) : option disk :=
   match l with
   | [] => Some d
-  | e :: r => if allowed g d e then accept g (apply_effect d e) r else None
+  | e :: r => if allowed g d e then accept g chg (apply_effect chg d e) r else None
   end.
 
 (** State left by a crash before the [k+1]-th effect. *)
-Definition crash_state (d : disk) (l : list effect) (k : nat) : disk :=
-  run apply_effect (firstn k l) d.
+Definition crash_state (chg : list nat) (d : disk) (l : list effect) (k : nat) : disk :=
+  run (apply_effect chg) (firstn k l) d.
 
 (** What `jj op log` finds: the operation resolve_op_heads returns when run alone
     (Props/C14.v C14_quiescent): with heads that are ancestors of one another it is the
@@ -102,6 +118,12 @@ Definition loadableb (g : dag) (d : disk) : bool :=
 Definition wc_synced (d : disk) : bool :=
   (d_checkout d =? current d) && match d_wc_dirty d with [] => true | _ => false end.
 
+(** checkout's operation => tree_state is the tree checked out for that operation: either
+    checkout still names an older operation (the stale path: check_stale compares trees,
+    `workspace update-stale` recovers) or tree_state already describes the current one. *)
+Definition wc_consistent (d : disk) : Prop :=
+  d_checkout d <> current d \/ d_ts d = current d.
+
 (* ------------------------------------------------------------------ correspondence case *)
 (** Observation after killing the real jj before its [o_n]-th durable effect. *)
 Record obs := mk_obs {
@@ -115,6 +137,7 @@ Record obs := mk_obs {
   o_status_ok : bool;      (* `jj status` exits 0 right away *)
   o_recovered : bool;      (* `jj workspace update-stale` exits 0 and `jj status` exits 0 afterwards *)
   o_files_kept : bool;     (* every file on disk after the crash is still there or stored in a commit some operation shows *)
+  o_tree : nat;            (* after recovery the working-copy commit has the tree it has at this operation of the uncrashed run (999 = at none) *)
   o_state : nat            (* described commits + bookmarks after recovery: 0 = all of the state before the command present, 1 = all of the state after it, 3 = both (recovery kept a divergent copy), 2 = neither *)
 }.
 
@@ -127,11 +150,12 @@ Record case := mk_case {
   c_obs : list obs;
   c_tables_ok : bool;           (* after every crash all content-addressed files hash to their names *)
   c_colocated : bool;           (* the workspace shares its working copy with a Git repo (.git next to .jj) *)
-  c_sig_changed : bool          (* the command changes the described commits / bookmarks at all *)
+  c_sig_changed : bool;         (* the command changes the described commits / bookmarks at all *)
+  c_wc_changed : list nat       (* new operations whose working-copy tree differs from the operation before *)
 }.
 
 Definition disk_before (c : case) : disk :=
-  mk_disk (seq 0 (c_nbefore c)) [c_head_before c] (c_checkout_before c) [] 0.
+  mk_disk (seq 0 (c_nbefore c)) [c_head_before c] (c_checkout_before c) [] 0 (c_checkout_before c).
 
 (** The state before the command is a normal one: one head, the working copy records an
     operation that is the head or one of its ancestors (a stale working copy). *)
@@ -140,7 +164,7 @@ Definition init_okb (c : case) : bool :=
   && ancb (c_dag c) (c_checkout_before c) (c_head_before c).
 
 Definition pred_ok (c : case) (o : obs) : bool :=
-  let d := crash_state (disk_before c) (c_effects c) (o_n o - 1) in
+  let d := crash_state (c_wc_changed c) (disk_before c) (c_effects c) (o_n o - 1) in
   (o_current o =? current d)
   && eqn_list (o_heads o) (d_heads d)
   && (o_checkout o =? d_checkout d)
@@ -151,7 +175,7 @@ Definition pred_ok (c : case) (o : obs) : bool :=
 
 Definition corr (c : case) : bool :=
   init_okb c &&
-  match accept (c_dag c) (disk_before c) (c_effects c) with
+  match accept (c_dag c) (c_wc_changed c) (disk_before c) (c_effects c) with
   | None => false
   | Some _ => forallb (pred_ok c) (c_obs c)
   end
@@ -167,7 +191,8 @@ Definition obs_okb (c : case) (o : obs) : bool :=
   && ancb (c_dag c) (c_head_before c) (o_current o)
   && (o_status_ok o || o_recovered o)
   && o_files_kept o
-  && negb (o_state o =? 2).
+  && negb (o_state o =? 2)
+  && negb (o_tree o =? 999).
 
 Definition okb (c : case) : bool :=
   wf_dagb (c_dag c) && forallb (obs_okb c) (c_obs c) && c_tables_ok c.
